@@ -93,7 +93,10 @@ fn main() {
             c17::run_concurrent(&cfg, &mut out)
         }
         "C20" => c20::run(&cfg, &mut out),
-        "C12" => c12::run(&cfg, &mut out),
+        "C12" => {
+            c12::run(&cfg, &mut out);
+            c12::run_concurrent(&cfg, &mut out)
+        }
         "C03" => c03::run(&cfg, &mut out),
         "C14" => c14::run(&cfg, &mut out),
         "C05" => c05::run(&cfg, &mut out),
